@@ -213,7 +213,9 @@ def spawn (s : St) (frames : List Frame) (name : TaskName) : St × Nat :=
 /-! ### graph.py / _get_reduced_dag -/
 
 def filteredView (P : Program) (s : St) : Graph.View :=
-  { okNode := fun u => !(P.g.attr u).isOneofChild || s.opened u,
+  { -- (fix: the candidates of a one-of are no longer hidden: with the candidate → head edges filtered, a candidate is part
+    -- of somebody else's reduced DAG only where it is an ordinary dependency too, and there it has to be computed)
+    okNode := fun _ => true,
     -- case edges, and the edges from the candidates of a one-of to its synthetic head, are not part of any reduced DAG
     okEdge := fun e => e.case.isNone && !((P.g.attr e.v).oneofNodes.contains e.u) }
 
@@ -253,7 +255,9 @@ def predsFor (P : Program) (s : St) (d : DagRef) (n : Node) : List Node :=
     if g.isSwitch n && !d.isRec then
       (g.edges.filter (fun e => e.v == n && e.isSwitch)).map (·.u)
     else if g.isSwitch n || g.isOneofHead n || d.isRec then
-      (g.preds n).filter d.nodes.contains
+      -- (fix: a one-of head does not wait for its own candidates — they may be nodes of the current DAG because somebody
+      -- else depends on them too)
+      (g.preds n).filter fun p => d.nodes.contains p && !(g.isOneofHead n && (g.attr n).oneofNodes.contains p)
     else g.preds n
   base.map fun p => if g.isSwitch p then (match s.sw p with | some (_, c) => c | none => p) else p
 
@@ -356,7 +360,9 @@ def nodeFinally (P : Program) (s : St) (d : DagRef) (n : Node) (unlock : Bool) :
   else
     let s := notifyAll s ((P.g.desc1 n).map Key.node)
     let s := notify s .run
-    if d.dest == some n then notify s (.node n) else s
+    -- (fix: whoever waits for the node itself is woken whichever DAG executed it — a one-of waits for its candidate, and a
+    -- candidate that is an ordinary dependency of somebody else is executed by that DAG)
+    notify s (.node n)
 
 /-- an exception (or cancellation) propagates out of the frames `fs` of the current task:
 only `_run_node` has a `finally`; nothing catches. -/
